@@ -17,7 +17,7 @@ func init() {
 		Assumptions: []string{"stop() only ever advances Interpreter.id (checked by C09/R09.5)"},
 		Run:         runC10,
 	})
-	ruleText["R10.1"] = "in (*Interpreter).Execute, interp.frame.setrunid(interp.runid()) dominates every call of (*Interpreter).run"
+	ruleText["R10.1"] = "in every function that calls (*Interpreter).run (Execute, importSrc), interp.frame.setrunid(interp.runid()) dominates every such call"
 	ruleText["R10.2"] = "in a function literal passed to reflect.MakeFunc, the id passed to newFrame is not the runid() of a frame captured at creation time (a free variable): such an id is frozen while stop() advances the interpreter's id forever"
 }
 
@@ -27,10 +27,19 @@ func runC10(c *Config, r *Report) {
 		r.Errorf("%v", err)
 		return
 	}
-	// R10.1
-	ex := ic.fn(r, "Interpreter.Execute")
-	if ex != nil {
-		frameFld := ic.field("Interpreter", "frame")
+	// R10.1: every function that starts execution on the root frame refreshes its id first.
+	frameFld := ic.field("Interpreter", "frame")
+	starters := 0
+	for _, name := range sortedKeys(ic.F) {
+		ex := ic.F[name]
+		if ex.Decl.Body == nil || name == "Interpreter.run" {
+			continue
+		}
+		runs := callsIn(ic.Info, ex.Decl.Body, false, "interp.Interpreter.run")
+		if len(runs) == 0 {
+			continue
+		}
+		starters++
 		var refresh ast.Node
 		ast.Inspect(ex.Decl.Body, func(n ast.Node) bool {
 			c, ok := n.(*ast.CallExpr)
@@ -46,25 +55,25 @@ func runC10(c *Config, r *Report) {
 			}
 			return true
 		})
-		runs := callsIn(ic.Info, ex.Decl.Body, false, "interp.Interpreter.run")
-		if len(runs) == 0 {
-			r.Errorf("R10.1: Execute does not call (*Interpreter).run")
-		}
+		key := name + "/refresh"
 		if refresh == nil {
-			r.Fail("R10.1", "Execute/refresh", ic.pos(ex.Decl.Pos()), "Execute never refreshes the root frame's run id from the interpreter's current id: after one cancellation nothing executes any more")
-		} else {
-			fg := buildFlow(ex.Decl.Body, ic.Info)
-			all := true
-			for _, rc := range runs {
-				if d, ok := fg.dominates(refresh, rc); !ok || !d {
-					all = false
-					r.Fail("R10.1", "Execute/refresh", ic.pos(rc.Pos()), "this run is not dominated by interp.frame.setrunid(interp.runid()): after a cancelled evaluation the root frame keeps a stale id and the run does nothing")
-				}
-			}
-			if all {
-				r.Pass("R10.1", "Execute/refresh", ic.pos(refresh.Pos()), "root frame id refreshed before every run")
+			r.Fail("R10.1", key, ic.pos(ex.Decl.Pos()), name+" runs code on the root frame but never refreshes the root frame's run id from the interpreter's current id: after one cancelled evaluation the package-level code it runs is silently skipped")
+			continue
+		}
+		fg := buildFlow(ex.Decl.Body, ic.Info)
+		all := true
+		for _, rc := range runs {
+			if d, ok := fg.dominates(refresh, rc); !ok || !d {
+				all = false
+				r.Fail("R10.1", key, ic.pos(rc.Pos()), "this run is not dominated by interp.frame.setrunid(interp.runid()): after a cancelled evaluation the root frame keeps a stale id and the run does nothing")
 			}
 		}
+		if all {
+			r.Pass("R10.1", key, ic.pos(refresh.Pos()), "root frame id refreshed before every run")
+		}
+	}
+	if starters < 2 {
+		r.Errorf("R10.1: %d functions calling (*Interpreter).run found; Execute and importSrc are expected", starters)
 	}
 	// R10.2
 	g := buildSGraph(ic.SP)
